@@ -17,7 +17,7 @@ ASSUMPTIONS = ["early commands take at most a fifth of the timeout, overrunning 
 SHAPES = {
     "sleep": "sleep 30",
     "busy": "while :; do :; done",
-    "noint": "sh -c \"trap '' INT; while :; do :; done\"",
+    "noint": "sh -c \"trap '' INT; n=0; while [ \\$n -lt 25000000 ]; do n=\\$((n+1)); done\"",
     # (binary only) ignores SIGINT and would leave a mark 4 s after its start: it must have been killed (2 s after the timeout) before that,
     # also when taskctl itself has ended in the meantime
     "orphan": "sh -c \"trap '' INT; sleep 4 >/dev/null 2>&1; echo orphan >> $PROJ/orphan\"",
